@@ -16,7 +16,7 @@ RULE = ("case = (bits b, length, input dtype, values, window w, positions, order
 ASSUMPTIONS = ["values fit in b bits and are non-negative; window sizes satisfy w*b <= 64 and w <= length"]
 ANCHORS = ["bitarray.py::BitArray.pack", "bitarray.py::BitArray.unpack", "bitarray.py::BitArray.__getitem__", "bitarray.py::BitArray.sliding_window"]
 BITS = [1, 2, 4, 8, 16, 32]
-DTS = ["int8", "int16", "int32", "int64", "uint8", "uint16", "uint32", "uint64"]
+DTS = ["int8", "int16", "int32", "int64", "uint8", "uint16", "uint32", "uint64", ">i8", ">u8", ">i4", ">u2"]      # also non-native byte order
 FLOOR_TAGS = ["b:%d" % b for b in BITS] + ["len:multiple", "len:multiple+1", "len:multiple-1", "len:<register", "w:1", "w:full", "w:mid", "style:rand", "style:ones", "style:alt",
                                            "straddle"]
 FLOOR_MONITORS = ["c13:unpack", "c13:getint", "c13:getlist", "c13:window", "c13:unpack-again"]
@@ -35,7 +35,7 @@ def run(case):
     L = len(vals)
     arr = np.array(vals, dtype=dt)
     style = case.get("style", "rand")
-    tags = ["b:%d" % b, "dt:" + dt.name, "style:" + style,
+    tags = ["b:%d" % b, "dt:" + dt.str, "style:" + style,
             "len:multiple" if L % per == 0 else ("len:multiple+1" if L % per == 1 and L > per else ("len:multiple-1" if L % per == per - 1 else ("len:<register" if L < per else "len:other"))),
             "w:1" if w == 1 else ("w:full" if w == per else "w:mid")]
     if L > per and w > 1:
